@@ -3,7 +3,7 @@ import re
 
 from report import Rule
 from astlib import find_all, find_first, show, show_pat, quotes_in, tok_text, method_chain, callee_path, walk
-from rules.common import ftrav, flat, flatp, has, same
+from rules.common import ftrav, flat, flatp, has, same, xquotes
 
 EXPLANATION = (
     "Static structural analysis of the parser's string splitting, the reducer and the code generators (syntax facts; a "
@@ -148,7 +148,7 @@ def r4_emission(ctx):
         if many:
             ok = ok and flatp(show(arms["values"]["body"])) == flatp(many)
         else:
-            qs = [flat(tok_text(q["tokens"])) for q in quotes_in(arms["values"]["body"])] if "values" in arms else []
+            qs = [flat(tok_text(q["tokens"])) for q in xquotes(arms["values"]["body"])] if "values" in arms else []
             ok = ok and qs == ["{#(#values?;)*Ok(())}"]
         flatten_call = "flatten" + ("_string" if name == "as_string_impl" else "")
         ok = ok and has(t, "%sthis,&muttokens,&locale_field,strings_count;match&muttokens[..]{" % flatten_call)
@@ -161,7 +161,7 @@ def r4_emission(ctx):
         r.missing("fit_in_leptos_tuple")
     else:
         t = flatp(show(fn.body))
-        qs = [flat(tok_text(q["tokens"])) for q in quotes_in(fn.body)]
+        qs = [flat(tok_text(q["tokens"])) for q in xquotes(fn.body)]
         chains = []
         for l in find_all(fn.body, "Let"):
             if "init" in l and show_pat(l["pat"]).split()[-1] == "values":
@@ -260,7 +260,7 @@ def r6_display(ctx):
             r.inst("DisplayComponent for " + ty, w)
     fn = ast.fn(MV, "flatten_string")
     if fn is not None:
-        qs = [flat(tok_text(q["tokens"])) for q in quotes_in(fn.body)]
+        qs = [flat(tok_text(q["tokens"])) for q in xquotes(fn.body)]
         if "l_i18n_crate::display::DisplayComponent::fmt(#key,__formatter,|__formatter|#inner)" in qs:
             r.inst("flatten_string#Component", "DisplayComponent::fmt(key, f, |f| children)")
         else:
